@@ -16,7 +16,10 @@ MCServable5 == [rq \in MCReqs5 |-> rq \in {"r0", "r1"}]
 MCInit == Init /\ hist = <<>>
 MCNext == Next /\ UNCHANGED hist
 MCSpec == MCInit /\ [][MCNext]_<<vars, hist>>
-SimInit == Init /\ hist = <<[a |-> "Init", canFast |-> canFast, verified |-> verified]>>
+\* the queue depth a peer advertises in its extended handshake (reqq; 0: none) is the peer's business: the bound on what
+\* we queue for it is ours, so the specification does not depend on it - the binding sends it before the first step
+AdvQs == {0, 2, 100000}
+SimInit == Init /\ \E q \in [Peers -> AdvQs] : hist = <<[a |-> "Init", canFast |-> canFast, verified |-> verified, advQ |-> q]>>
 SimNext == Next /\ hist' = Append(hist, last')
 SimSpec == SimInit /\ [][SimNext]_<<vars, hist>>
 Dump == (steps = MaxSteps) => PrintT("BEH " \o ToJson(hist))
